@@ -7,6 +7,8 @@ R16.2  atomicity by construction (little-endian configuration): the body touches
        one builtin (big-endian lock regions are checked by C19)
 R16.3  cmpxchg returns the value observed in memory
 R16.4  effective address / operand roles / stack effect of the templates (as R05.2)
+R16.5  mutex-based configuration (what big-endian hosts use): every read-modify-write / compare-exchange is one lock region of
+       mem->mutex that contains both the read and the write (rule shared with C19 R19.1)
 """
 from .. import astdb, pe, emit, oracle, templates, runtime, memrules as mr
 from . import c01, c05
@@ -66,6 +68,19 @@ def run(chk):
     configs = [(0, 0), (1, 0)] if chk.tier == 'quick' else [(0, 0), (1, 0), (0, 1), (1, 1)]
     c05.check_access_rows(chk, it, tabs, rows, configs, 'R16.1', 'R16.4', rt_check, header_cfg='le')
     check_align(chk, it, tabs, rows)
+    # the mutex-based configuration (big-endian hosts have no lock-free path): every read-modify-write and compare-exchange is one
+    # lock region of mem->mutex containing the read and the write, and the access functions agree with the specification on concrete
+    # bytes (rules shared with C19, which owns the byte-order clauses)
+    from . import c19
+    from .. import runtime, concrete_mem as cm
+    from ..pe import PEError
+    bhtu = runtime.header('be')
+    chk.unit(bhtu)
+    callees = c19.template_callees(chk)
+    for row in rows:
+        if row['sem']['cls'] in ('atomic.rmw', 'atomic.cmpxchg'):
+            c19.check_function(chk, bhtu, row, 'be', callees, rule='R16.5')
+    chk.floor('R16.5', 49)
     chk.floor('R16.1', 63 * 3)
     chk.floor('R16.3', 7)
     chk.floor('R16.4', 63 * 6)
